@@ -234,4 +234,10 @@ def check(ctx: Ctx):
         r15_4_5(ctx)
     if C.want(ctx, 'R15.6'):
         r15_6(ctx)
+    if C.want(ctx, 'R15.7'):
+        # the value at a point also depends on the floating-point error mode, the warnings filters, the global seeds:
+        # problem code that changes one of them (constructing a GKLS that leaves numpy at 'raise') changes what every
+        # other evaluation in the process returns (= R12.5 for the problem modules)
+        from . import c12
+        c12.r12_5(ctx, rid='R15.7', only_modules=['iOpt.problem'])
     ctx.assume('numpy/math functions called by the evaluations are pure and do not retain their arguments')
